@@ -66,7 +66,7 @@ def norm(o):
     return json.dumps(j, sort_keys=True)
 
 
-def run(adds, with_unversioned, save_load):
+def run(adds, with_unversioned, save_load, bundlify=False):
     """adds: list of (id idx, mod idx, form).  Both stores vs the list model; returns True iff they agree everywhere."""
     ffs = fakefs.FakeFS()
     saved = fakefs.install(F, ffs)
@@ -74,7 +74,7 @@ def run(adds, with_unversioned, save_load):
     if save_load:
         fakefs.install(M, ffs)
     try:
-        fstore = F.FileSystemStore("/fs", allow_custom=True)
+        fstore = F.FileSystemStore("/fs", allow_custom=True, bundlify=bundlify)      # bundlify: every file holds the object wrapped in a bundle
         mstore = M.MemoryStore(allow_custom=True)
         model = []
         if with_unversioned:
@@ -151,7 +151,7 @@ def hist2_forms(i1: int, m1: int, f1: int, i2: int, m2: int, f2: int, sl: bool) 
     adds = [(pick(i1, NID), pick(m1, 3), pick(f1, 5)), (pick(i2, NID), pick(m2, 3), pick(f2, 5))]
     sl = bool(sl)
     with Native():
-        ok = run(adds, True, sl)
+        ok = run(adds, True, sl, bundlify=(adds[0][1] + adds[1][1]) % 2 == 1)
     V.reached()
     return ok
 
